@@ -44,6 +44,8 @@ type depQuery struct {
 	why      map[ssa.Value]ssa.Value
 	// exploreAll: visit the whole backward slice (used with a target that records and answers false)
 	exploreAll bool
+	// intra: do not look into callees (calls depend on their arguments only)
+	intra bool
 }
 
 func newDepQuery(p *Program, target func(v ssa.Value) bool) *depQuery {
@@ -273,6 +275,9 @@ func (q *depQuery) servingStores(fld string, path []int, depth int) bool {
 }
 
 func (q *depQuery) calleeResults(site ssa.CallInstruction, idx int, path []int, depth int) bool {
+	if q.intra {
+		return false
+	}
 	for _, callee := range q.p.calleesAt(site) {
 		if !q.p.isRepoFunc(callee) || len(callee.Blocks) == 0 {
 			continue
